@@ -70,7 +70,7 @@ def cases(tier, rng):
         else:
             upa_p = upa
         yield {"k": 1803, "args": [ds, sq, nets.pits(ds), _main(ds, upa_p, 0), upa_p, [0], [], [depth]], "group": f"{tag}-pfaf{depth}"}
-    for t in range(40 if tier == "quick" else 400):
+    for t in range(150 if tier == "quick" else 1500):
         nr, nc = rng.randint(2, 7), rng.randint(2, 7)
         flw = nets.random_d8_raster(rng, nr, nc, p_nodata=rng.choice([0, 0.15]))
         ds = nets.d8_decode(flw, nr, nc)
@@ -83,10 +83,19 @@ def cases(tier, rng):
             yield {"k": 1801, "args": [ds, nets.topo_order(ds), _strahler(ds, [1] * len(ds)), [rng.choice([1, 2, -1])]],
                    "call": {"nr": nr, "nc": nc, "flw": flw}, "group": "raster-streamorder"}
         elif which == "area":
-            yield {"k": 1802, "args": [ds, nets.topo_order(ds), main, upa, [rng.choice([1, 3, 8])]],
-                   "call": {"nr": nr, "nc": nc, "flw": flw}, "group": "raster-area"}
+            if rng.random() < 0.5:
+                yield {"k": 1802, "args": [ds, nets.topo_order(ds), main, upa, [rng.choice([1, 3, 8])]],
+                       "call": {"nr": nr, "nc": nc, "flw": flw}, "group": "raster-area"}
+            else:
+                # user-supplied areas that rank the branches differently from the object's own (cell-count) main stem
+                # (round-2 seed); the model gets the main stem the object uses
+                n = nr * nc
+                w = [rng.choice([1, 1, 2, 9, 20]) for _ in range(n)]
+                upw = [(-9999 if ds[i] < 0 else sum(w[x] for x in range(n) if ds[x] >= 0 and i in _path(ds, x))) for i in range(n)]
+                yield {"k": 1802, "args": [ds, nets.topo_order(ds), main, upw, [rng.choice([3, 10, 25, 40])]],
+                       "call": {"nr": nr, "nc": nc, "flw": flw}, "group": "raster-area-user"}
         else:
-            um = rng.choice([0, 2])
+            um = rng.choice([0, 2, 2, 3])       # ties exactly at the threshold
             mask = [int(u >= um) for u in upa]
             yield {"k": 1803, "args": [ds, nets.topo_order(ds), nets.pits(ds), main, upa, [1], mask, [rng.choice([1, 2])]],
                    "call": {"nr": nr, "nc": nc, "flw": flw, "upa_min": um}, "group": "raster-pfaf"}
